@@ -1397,7 +1397,84 @@ def stmt_cases(tier):
     for form, sql, rows in aj:
         add({"fn": "ALIAS_IN_JOIN", "check": "rows", "cls": f"fn=ALIAS_IN_JOIN,form={form}", "sql": sql, "rows": rows, "ordered": True,
              "rej_ok": f"ALIAS_IN_JOIN:{form}" in REJ_OK_TODAY})
+    # ---- every statement-level construct again inside INSERT … SELECT, CREATE TABLE AS, a view, a top-level set operation
+    # and UPDATE … SET = (subquery).  Oracles: rows mode = the stored / returned rows are the documented ones; random mode =
+    # 64-bit integers and the same values when the same statements run again; sample mode = subset of the table and the
+    # same sample when the same statements run again.  Not demanded: RANDOM(seed) through a view (the seed is in the view
+    # body, not in the statement that is executed twice): only the type.
+    for b in _ctx_bases(tier):
+        for cx in STMT_CONTEXTS:
+            w = _ctx_wrap(cx, b)
+            if w is not None:
+                form = f"{b['fn']}:{b['form']}:{cx}"
+                add(dict(w, fn=b["fn"], check="stmt_ctx", mode=b["mode"], cls=f"fn={b['fn']},form={b['form']},ctx={cx}",
+                         rej_ok=form in REJ_OK_TODAY, n=b.get("n"), ctx=cx))
     return cs
+
+
+STMT_CONTEXTS = ("insert_select", "ctas", "view", "union_all", "update_subquery")
+
+
+def _ctx_bases(tier):
+    """Base SELECTs (no ORDER BY / WITH, every column aliased) of the statement-level constructs.
+    sel: the select; cols: column definitions of a table that can hold it; rows: expected rows (rows mode);
+    const: a constant SELECT of the same shape and its row (second branch of the set operation);
+    scalar: (1x1 select, column type, expected value or None) for UPDATE … SET x = (subquery)."""
+    bs = []
+    for s in _t(tier, [1, 420], [0, 2147483647]):
+        bs.append({"fn": "RANDOM", "form": "seeded", "mode": "random", "sel": f"SELECT RANDOM({s}) AS v", "cols": "v NUMBER(38,0)", "n": 1,
+                   "const": ("SELECT 0", (0,)), "scalar": (f"SELECT RANDOM({s})", "NUMBER(38,0)", None)})
+    bs.append({"fn": "RANDOM", "form": "seeded_per_row", "mode": "random", "sel": "SELECT RANDOM(7) AS v FROM c10_t WHERE id <= 3", "cols": "v NUMBER(38,0)", "n": 3,
+               "const": ("SELECT 0", (0,)), "scalar": None})
+    for pct in _t(tier, [50], [100, 0]):
+        bs.append({"fn": "SAMPLE", "form": f"SAMPLE_SEED,p={'between' if 0 < pct < 100 else pct}", "mode": "sample", "p": pct,
+                   "sel": f"SELECT id, v FROM c10_t SAMPLE ({pct}) SEED (1)", "cols": "id INT, v VARCHAR", "const": ("SELECT 0, 'z'", (0, "z")), "scalar": None})
+    bs.append({"fn": "IDENTIFIER", "form": "table_and_column", "mode": "rows", "sel": "SELECT IDENTIFIER('id') AS i, IDENTIFIER('v') AS w FROM IDENTIFIER('c10_t') WHERE IDENTIFIER('id') <= 2",
+               "cols": "i INT, w VARCHAR", "rows": [(1, "r1"), (2, "r2")], "const": ("SELECT 0, 'z'", (0, "z")),
+               "scalar": ("SELECT IDENTIFIER('v') FROM IDENTIFIER('c10_t') WHERE id = 3", "VARCHAR", "r3")})
+    bs.append({"fn": "VALUES", "form": "columnN", "mode": "rows", "sel": "SELECT column2 AS b, column1 AS a FROM VALUES (1,'a'),(2,'b') WHERE column1 > 0",
+               "cols": "b VARCHAR, a INT", "rows": [("a", 1), ("b", 2)], "const": ("SELECT 'z', 0", ("z", 0)),
+               "scalar": ("SELECT column2 FROM VALUES (1,'q') WHERE column1 = 1", "VARCHAR", "q")})
+    bs.append({"fn": "VALUES", "form": "star", "mode": "rows", "sel": "SELECT * FROM VALUES (1,'a'),(2,'b')", "cols": "column1 INT, column2 VARCHAR",
+               "rows": [(1, "a"), (2, "b")], "const": ("SELECT 0, 'z'", (0, "z")), "scalar": None, "names": ["COLUMN1", "COLUMN2"]})
+    bs.append({"fn": "ARRAY_AGG", "form": "within_group", "mode": "rows", "sel": "SELECT ARRAY_AGG(id) WITHIN GROUP (ORDER BY id DESC) AS a FROM c10_a",
+               "cols": "a ARRAY", "rows": [([5, 4, 3, 2, 1],)], "json_cols": (0,), "const": None,
+               "scalar": ("SELECT ARRAY_AGG(v) WITHIN GROUP (ORDER BY id) FROM c10_a WHERE g = 'y'", "ARRAY", ["c", "d"])})
+    if tier == T:
+        bs.append({"fn": "ARRAY_AGG", "form": "distinct_group_by", "mode": "rows", "sel": "SELECT g, ARRAY_AGG(DISTINCT n) WITHIN GROUP (ORDER BY n) AS a FROM c10_a GROUP BY g",
+                   "cols": "g VARCHAR, a ARRAY", "rows": [("x", [1, 2]), ("y", [2, 3])], "json_cols": (1,), "const": None, "scalar": None})
+    bs.append({"fn": "ALIAS_IN_JOIN", "form": "alias_eq", "mode": "rows", "sel": "SELECT l.col AS c, SUBSTR(l.col, 4) AS al, r.other AS o FROM c10_l l JOIN c10_r r ON al = r.rcol",
+               "cols": "c VARCHAR, al VARCHAR, o VARCHAR", "rows": _IJ, "const": ("SELECT 'z', 'z', 'z'", ("z", "z", "z")), "scalar": None})
+    return bs
+
+
+def _ctx_wrap(cx, b):
+    sel = b["sel"]
+    drop = ["DROP VIEW IF EXISTS c10_xv", "DROP TABLE IF EXISTS c10_x"]
+    if cx == "insert_select":
+        return {"pre": [f"CREATE OR REPLACE TABLE c10_x ({b['cols']})"], "stmt": [f"INSERT INTO c10_x {sel}"], "sql": f"INSERT INTO c10_x {sel}",
+                "read": "SELECT * FROM c10_x", "rows": b.get("rows"), "cleanup": drop, "json_cols": b.get("json_cols", ()), "p": b.get("p")}
+    if cx == "ctas":
+        return {"pre": [], "stmt": [f"CREATE OR REPLACE TABLE c10_x AS {sel}"], "sql": f"CREATE OR REPLACE TABLE c10_x AS {sel}", "read": "SELECT * FROM c10_x",
+                "rows": b.get("rows"), "cleanup": drop, "json_cols": b.get("json_cols", ()), "names": b.get("names"), "p": b.get("p")}
+    if cx == "view":
+        return {"pre": [], "stmt": [f"CREATE OR REPLACE VIEW c10_xv AS {sel}"], "sql": f"CREATE OR REPLACE VIEW c10_xv AS {sel}", "read": "SELECT * FROM c10_xv",
+                "rows": b.get("rows"), "cleanup": drop, "json_cols": b.get("json_cols", ()), "names": b.get("names"), "p": b.get("p"),
+                "repeat": b["mode"] != "random"}
+    if cx == "union_all":
+        if b["const"] is None:
+            return None
+        csel, crow = b["const"]
+        return {"pre": [], "stmt": [], "sql": f"{sel} UNION ALL {csel}", "read": f"{sel} UNION ALL {csel}", "rows": (b["rows"] + [crow]) if b.get("rows") is not None else None,
+                "extra_row": crow, "cleanup": [], "json_cols": b.get("json_cols", ()), "p": b.get("p")}
+    if cx == "update_subquery":
+        if b["scalar"] is None:
+            return None
+        ssel, ctype, val = b["scalar"]
+        return {"pre": [f"CREATE OR REPLACE TABLE c10_x (k INT, x {ctype})", "INSERT INTO c10_x (k) VALUES (1)"], "stmt": [f"UPDATE c10_x SET x = ({ssel}) WHERE k = 1"],
+                "sql": f"UPDATE c10_x SET x = ({ssel}) WHERE k = 1", "read": "SELECT x FROM c10_x", "rows": [(val,)] if b["mode"] == "rows" else None, "cleanup": drop,
+                "json_cols": (0,) if isinstance(val, list) else (), "n_override": 1}
+    raise AssertionError(cx)
 
 
 def _stmt_violation(acc, c, tier, idx, failed, detail):
@@ -1428,17 +1505,75 @@ def check_stmt(cur, c):
             return True, {"problem": "column names", "expected": c["names"], "observed": [d[0] for d in r[2]]}, ob
         return False, {}, ob
     if k == "random":
-        # Not demanded: equal values when the statement is executed again (the RANDOM page says there is no such
-        # guarantee, with or without a seed) and the values themselves.
+        # Demanded: the same statement text with the same seed gives the same values when it is executed again (the
+        # seeding contract the property anchors: transforms.random + setseed in cursor._execute, pinned by the repo's
+        # test_random); unseeded draws are made in between so that the generator has moved on.
+        # Not demanded: the values themselves, equality between different statement texts.
         r1 = run_sql(cur, c["sql"], want_desc=False)
-        if r1[0] == "rej":
-            return (not c.get("rej_ok", False)), {"problem": "rejected", "exception": r1[2]}, ("rej", r1[2])
+        run_sql(cur, "SELECT RANDOM(), RANDOM()", want_desc=False)
+        r2 = run_sql(cur, c["sql"], want_desc=False)
+        if r1[0] == "rej" or r2[0] == "rej":
+            rr = r1 if r1[0] == "rej" else r2
+            return (not c.get("rej_ok", False)), {"problem": "rejected", "exception": rr[2]}, ("rej", rr[2])
         cells = [x for row in r1[1] for x in row]
         if len(r1[1]) != c["n"] or not all(type(x) is int and INT64[0] <= x <= INT64[1] for x in cells):
             return True, {"problem": "not n rows of 64-bit integers", "observed": norm(r1[1])}, ("ok", "shape")
         if c.get("same_in_row") and any(len(set(row)) != 1 for row in r1[1]):
             return True, {"problem": "two calls with one seed in one row differ"}, ("ok", "row_differs")
-        return False, {}, ("ok", "int64")
+        if r1[1] != r2[1]:
+            return True, {"problem": "same statement, same seed: different values on the second execution"}, ("ok", "not_repeatable")
+        return False, {}, ("ok", "int64, repeatable")
+    if k == "stmt_ctx":
+        def once():
+            for st in c["pre"] + c["stmt"]:
+                r = run_sql(cur, st, want_desc=False)
+                if r[0] == "rej":
+                    return ("rej", st, r[2])
+            return run_sql(cur, c["read"])
+
+        r1 = once()
+        if c["mode"] != "rows":
+            run_sql(cur, "SELECT RANDOM(), RANDOM()", want_desc=False)
+        r2 = once() if c["mode"] != "rows" else r1
+        for z in c.get("cleanup", []):
+            run_sql(cur, z, want_desc=False)
+        if r1[0] == "rej" or r2[0] == "rej":
+            rr = r1 if r1[0] == "rej" else r2
+            return (not c["rej_ok"]), {"problem": "rejected", "statement": rr[1], "exception": rr[2]}, ("rej", rr[2])
+        extra = [c["extra_row"]] if c.get("extra_row") is not None else []
+        if c["mode"] == "rows":
+            ob = ("ok", norm(r1[1]), [d[0] for d in r1[2]] if r1[2] else None)
+            if not _rows_equal(r1[1], c["rows"], False, c.get("json_cols", ())):
+                return True, {"problem": "rows", "expected": norm(c["rows"]), "observed": norm(r1[1])}, ob
+            if c.get("names") and r1[2] is not None and [d[0] for d in r1[2]] != c["names"]:
+                return True, {"problem": "column names", "expected": c["names"], "observed": [d[0] for d in r1[2]]}, ob
+            return False, {}, ob
+        rows1 = [tuple(_cell(x) for x in r) for r in r1[1]]
+        rows2 = [tuple(_cell(x) for x in r) for r in r2[1]]
+        for e in extra:
+            for rows in (rows1, rows2):
+                if e in rows:
+                    rows.remove(e)
+                else:
+                    return True, {"problem": "the constant branch of the set operation is missing", "observed": norm(rows)}, ("ok", "shape")
+        if c["mode"] == "random":
+            n = c.get("n_override") or c["n"]
+            if len(rows1) != n or not all(len(r) == 1 and type(r[0]) is int and INT64[0] <= r[0] <= INT64[1] for r in rows1):
+                return True, {"problem": "not n rows of 64-bit integers", "observed": norm(rows1)}, ("ok", "shape")
+            if c.get("repeat", True) and sorted(rows1) != sorted(rows2):
+                return True, {"problem": "same statements, same seed: different values when run again"}, ("ok", "not_repeatable")
+            return False, {}, ("ok", "int64" + (", repeatable" if c.get("repeat", True) else ""))
+        # sample
+        ob = ("ok", len(rows1))
+        if len(set(rows1)) != len(rows1) or not set(rows1) <= set(T_ROWS):
+            return True, {"problem": "not a subset of the table's rows", "observed": norm(rows1)}, ob
+        if c.get("p") == 0 and rows1:
+            return True, {"problem": "p=0 returned rows"}, ob
+        if c.get("p") == 100 and len(rows1) != len(T_ROWS):
+            return True, {"problem": "p=100 did not return every row", "observed": len(rows1)}, ob
+        if sorted(rows1) != sorted(rows2):
+            return True, {"problem": "same seed: different sample when the same statements run again"}, ob
+        return False, {}, ob
     if k == "random_pair":
         r1 = run_sql(cur, c["sql"], want_desc=False)
         r2 = run_sql(cur, c["sql2"], want_desc=False)
